@@ -18,6 +18,8 @@ RULE = ("random histories (1-25 steps) over: ds[k]=array (new/replacing; fewer/m
         "axis / ds.<dim>= / set_axis(values) / ds.axes[d]=Axis, rename_keys, direct ds.axes.append; start from Dataset() or Dataset(a=..,b=..) "
         "with differing labels. class = (step kinds seen as a set, start form, length bucket) plus per rejected step (position, new before, new after)")
 ANCHORS = ["dataset.__setitem__", "dataset.__delitem__", "dataset._maybe_delete_axes", "dataset.set_axis", "dataset.rename_keys", "dataset.rename_axes"]
+# entry points the workload calls itself; the other anchors are helpers behind them (counted as evidence only)
+ANCHORS_REQUIRED = ["dataset.__setitem__", "dataset.__delitem__", "dataset.set_axis", "dataset.rename_keys", "dataset.rename_axes"]
 FLOORS = {"quick": {"evaluations": 800, "distinct": 300, "outcome:steps": 6000, "outcome:rejected-steps": 600, "outcome:invariant-checks": 6000},
           "thorough": {"evaluations": 20000, "distinct": 2000}}
 POOL = ['x', 'y', 'z', 'w']
